@@ -9,6 +9,7 @@ level `n` (no bound on K) and all well-formed operands; carries and borrows are 
 import GivaroModel.Lemmas.RecIntConv
 import GivaroModel.Lemmas.RecIntMixed
 import GivaroModel.Lemmas.RecIntBezout
+import GivaroModel.Lemmas.RecIntSignedLemmas
 namespace Givaro.Props.C06
 open Givaro.Model.RecInt
 
@@ -414,6 +415,80 @@ theorem bezout_mod_coprime (t : Nat) {n : Nat} (c d : RU n) (hc : WF c) (hd : WF
 example : ∃ (b c : RU 1), WF b ∧ WF c ∧ val c ≠ 0 ∧ Nat.gcd (val b) (val c) = 1 ∧ val c % 2 = 1 :=
   ⟨zero 1, ofLimb 1 1, by simp [zero, WF, B64], by simp [ofLimb, zero, WF, B64], by simp [ofLimb, zero, val],
    by simp [ofLimb, zero, val], by simp [ofLimb, zero, val]⟩
+
+/-! ### `rint<K>` (radd.h, rsub.h, rmul.h, rdiv.h, rcmp.h, rfiddling.h, rrint.h): the signed wrappers
+    A `rint<K>` is its field `Value : ruint<K>`; `sval` is the two's-complement reading of the image (what `rint_to_mpz` returns,
+    `convert_roundtrip_signed`), `swrap n v` the representative of `v` modulo `2^bits` in `[-2^(bits-1), 2^(bits-1))`.
+    Every theorem is for every size and all operands. -/
+/-- `swrap` is the two's-complement wrap: congruent to its argument, in the signed range, and the identity on that range -/
+theorem swrap_exact (n : Nat) (v : Int) :
+    swrap n v % (Bn n : Int) = v % Bn n ∧ -(Bn n : Int) ≤ 2 * swrap n v ∧ 2 * swrap n v < Bn n ∧
+    (-(Bn n : Int) ≤ 2 * v → 2 * v < Bn n → swrap n v = v) := by
+  have hB : (0 : Int) < Bn n := by exact_mod_cast Bn_pos n
+  have h0 := Int.emod_nonneg v (ne_of_gt hB)
+  have h1 := Int.emod_lt_of_pos v hB
+  refine ⟨?_, ?_, ?_, swrap_id n v⟩
+  · unfold swrap; split
+    · exact Int.emod_emod_of_dvd _ (Int.dvd_refl _)
+    · rw [show v % (Bn n : Int) - Bn n = v % (Bn n : Int) + (-1) * (Bn n : Int) by ring, Int.add_mul_emod_self_right]
+      exact Int.emod_emod_of_dvd _ (Int.dvd_refl _)
+  · unfold swrap; split <;> omega
+  · unfold swrap; split <;> omega
+
+/-- `add`, `+`, `+=`; `sub`, `-`, `-=`; `mul`, `*`, `*=`; `addmul`; unary `-`, `neg`: the signed operation on the values, wrapped -/
+theorem rint_ring_ops_exact (t : Nat) {n : Nat} (a b c : RU n) (ha : WF a) (hb : WF b) (hc : WF c) :
+    sval (s_add b c) = swrap n (sval b + sval c) ∧ sval (s_sub b c) = swrap n (sval b - sval c) ∧
+    sval (s_mul t b c) = swrap n (sval b * sval c) ∧ sval (s_addmul t a b c) = swrap n (sval a + sval b * sval c) ∧
+    sval (s_neg c) = swrap n (-sval c) ∧
+    WF (s_add b c) ∧ WF (s_sub b c) ∧ WF (s_mul t b c) ∧ WF (s_addmul t a b c) ∧ WF (s_neg c) :=
+  ⟨(s_add_ok b c hb hc).2, (s_sub_ok b c hb hc).2, (s_mul_ok t b c hb hc).2, (s_addmul_ok t a b c ha hb hc).2, (s_neg_ok c hc).2,
+   (s_add_ok b c hb hc).1, (s_sub_ok b c hb hc).1, (s_mul_ok t b c hb hc).1, (s_addmul_ok t a b c ha hb hc).1, (s_neg_ok c hc).1⟩
+
+/-- `~c` on `rint`: `-c - 1` exactly (never wraps) -/
+theorem rint_not_exact {n : Nat} (c : RU n) (hc : WF c) : WF (s_not c) ∧ sval (s_not c) = -sval c - 1 := s_not_ok c hc
+
+/-- `cmp(a, b)` on `rint` (sign test first, then the unsigned comparison of the images) is exactly -1, 0, +1 by the order of the
+    signed values, so `<, <=, >, >=, ==, !=` are exact -/
+theorem rint_cmp_exact {n : Nat} (a b : RU n) (ha : WF a) (hb : WF b) :
+    (s_cmp a b = -1 ∧ sval a < sval b) ∨ (s_cmp a b = 0 ∧ sval a = sval b) ∨ (s_cmp a b = 1 ∧ sval a > sval b) := s_cmp_ok a b ha hb
+
+/-- `lmul(rint<K+1>&, b, c)` (four sign branches on the magnitudes, `MIN` included): the exact product, no wrap -/
+theorem rint_lmul_exact (t : Nat) {n : Nat} (b c : RU n) (hb : WF b) (hc : WF c) :
+    WF (s_lmul t b c) ∧ sval (s_lmul t b c) = sval b * sval c := s_lmul_ok t b c hb hc
+
+/-- `lsquare(rint<K+1>&, b)`: the exact square -/
+theorem rint_lsquare_exact (t : Nat) {n : Nat} (b : RU n) (hb : WF b) :
+    WF (s_lsquare t b) ∧ sval (s_lsquare t b) = sval b * sval b := s_lsquare_ok t b hb
+
+/-- the widening constructor `rint<K+1>(const rint<K>&)` is sign extension: the value is unchanged -/
+theorem rint_extend_exact {n : Nat} (a : RU n) (ha : WF a) : WF (s_ext a) ∧ sval (s_ext a) = sval a := s_ext_ok a ha
+
+/-- `div_q`, `/`, `/=` on `rint` for every divisor `b ≠ 0`: the code's convention is the quotient **truncated towards zero**
+    (C++ `/`, `mpz_tdiv_q`) of the signed values; the result is wrapped, which matters only for `MIN / -1` (= `MIN`) -/
+theorem rint_divq_exact (t : Nat) {n : Nat} (a b : RU n) (ha : WF a) (hb : WF b) (hne : sval b ≠ 0) :
+    WF (s_divq t a b) ∧ sval (s_divq t a b) = swrap n (Int.tdiv (sval a) (sval b)) := s_divq_ok t a b ha hb hne
+
+/-- `div_r`, `%`, `%=` on `rint` for a positive divisor (the code asserts `b > 1`; a negative divisor is outside its contract: its
+    image is used as an unsigned number): the remainder of the truncated division (sign of the dividend, `mpz_tdiv_r`), never wrapped -/
+theorem rint_divr_exact (t : Nat) {n : Nat} (a b : RU n) (ha : WF a) (hb : WF b) (hpos : 0 < sval b) :
+    WF (s_divr t a b) ∧ sval (s_divr t a b) = Int.tmod (sval a) (sval b) := s_divr_ok t a b ha hb hpos
+
+/-- hence for a positive divisor `a = (a / b)·b + a % b` on the signed values (quotient wrapped only in the excluded `MIN / -1`) -/
+theorem rint_div_identity (t : Nat) {n : Nat} (a b : RU n) (ha : WF a) (hb : WF b) (hpos : 0 < sval b) :
+    sval a = Int.tdiv (sval a) (sval b) * sval b + sval (s_divr t a b) := by
+  rw [(s_divr_ok t a b ha hb hpos).2, Int.mul_comm]; exact (Int.mul_tdiv_add_tmod _ _).symm
+
+/-- `<<`, `<<=` on `rint` for every count: `b·2^c` wrapped -/
+theorem rint_shl_exact {n : Nat} (b : RU n) (d : Nat) (hb : WF b) : WF (s_shl b d) ∧ sval (s_shl b d) = swrap n (sval b * 2 ^ d) :=
+  s_shl_ok b d hb
+
+/-- `>>`, `>>=` on `rint` for every count: the arithmetic shift `⌊b / 2^c⌋` (floor, also for negative `b`: `~(~b >> c)`) -/
+theorem rint_shr_exact {n : Nat} (b : RU n) (d : Nat) (hb : WF b) : WF (s_shr b d) ∧ sval (s_shr b d) = sval b / 2 ^ d :=
+  s_shr_ok b d hb
+
+-- non-vacuity: negative and positive well-formed operands exist (−1 and 1 at 128 bits)
+example : ∃ a b : RU 1, WF a ∧ WF b ∧ sval a < 0 ∧ 0 < sval b ∧ sval b ≠ 0 :=
+  ⟨ones 1, ofLimb 1 1, by simp [ones, WF, B64], by simp [ofLimb, zero, WF, B64], by decide, by decide, by decide⟩
 
 /-! ### mixed operands: recursive integer ⊗ built-in scalar -/
 /-- For every size, every well-formed `a` and **every value `w` of every built-in integral type** (`|w| < 2^64` covers u8 … s64 and
